@@ -345,16 +345,21 @@ func snapExpr(pr *Prog, name, typ string) string {
 // harnessSource renders the Go-only companion file of a program: state reset, state snapshot and the calls.
 func harnessSource(pr *Prog, pkg string) string {
 	var sb strings.Builder
-	fmt.Fprintf(&sb, "package %s\n%s\n", pkg, harnessHelpers)
 	// copies of the init() bodies (init itself can not be called)
+	inits := ""
 	for i, b := range pr.Inits {
 		p := &printer{}
 		p.line("func c14init%d() {", i)
 		p.block(b)
 		p.line("}")
-		sb.WriteString(p.sb.String() + "\n")
+		inits += p.sb.String() + "\n"
 	}
-	sb.WriteString("func c14reset() {\n")
+	imp := ""
+	if len(pr.Lib) > 0 && strings.Contains(inits, libAlias+".") {
+		imp = fmt.Sprintf("\nimport %s %q\n", libAlias, libPath(pkg))
+	}
+	fmt.Fprintf(&sb, "package %s\n%s%s\n%s", pkg, imp, harnessHelpers, inits)
+	sb.WriteString("func c14init() {\n")
 	for _, g := range pr.Globals {
 		fmt.Fprintf(&sb, "\t%s = %s\n", g.Name, zeroOf(g.Type))
 	}
@@ -366,13 +371,18 @@ func harnessSource(pr *Prog, pkg string) string {
 	for i := range pr.Inits {
 		fmt.Fprintf(&sb, "\tc14init%d()\n", i)
 	}
+	// c14init is the package initialisation again; a call works on the state of a freshly deployed contract
+	sb.WriteString("}\n\nfunc c14reset() {\n\tc14init()\n")
+	if pr.HasDeploy {
+		fmt.Fprintf(&sb, "\t%s(nil, false)\n", deployName)
+	}
 	sb.WriteString("}\n\nfunc c14snap() string {\n\ts := \"\"\n")
 	for _, g := range pr.Globals {
 		fmt.Fprintf(&sb, "\ts += %s + \"|\"\n", snapExpr(pr, g.Name, g.Type))
 	}
 	sb.WriteString("\treturn s\n}\n\n")
 	sb.WriteString("// C14Run executes every call under recover and reports one line per call.\nfunc C14Run(out func(string)) {\n")
-	sb.WriteString("\tout(\"S0 \" + c14snap())\n\tc14reset()\n\tout(\"S1 \" + c14snap())\n")
+	sb.WriteString("\tout(\"S0 \" + c14snap())\n\tc14init()\n\tout(\"S1 \" + c14snap())\n")
 	for ci, c := range pr.Calls {
 		f := pr.Funcs[c.F]
 		args := make([]string, len(c.Args))
@@ -556,7 +566,10 @@ type vmResult struct {
 // execute at most costCap statements, i.e. a few tens of thousands of instructions.
 const gasCap = 2_000_000
 
-func runVM(script []byte, offset, initOffset int, args []Arg, resType string) vmResult {
+// runVM executes one call the way a transaction invoking a freshly deployed contract sees it: _initialize (when the
+// contract has one), then _deploy(Null, false) at deployOffset (when the contract has one; -1 otherwise), then the method
+// at offset with args.
+func runVM(script []byte, offset, initOffset, deployOffset int, args []Arg, resType string) vmResult {
 	v := vm.New()
 	v.SetPriceGetter(func(opcode.Opcode, []byte) int64 { return vm.ExecFeeFactorMultiplier })
 	v.SetGasLimit(gasCap)
@@ -573,6 +586,12 @@ func runVM(script []byte, offset, initOffset int, args []Arg, resType string) vm
 		}
 	}
 	v.Context().Jump(offset)
+	// (the frame called last runs first; the arguments of _deploy lie above those of the method)
+	if deployOffset >= 0 {
+		v.Estack().PushVal(false)
+		v.Estack().PushItem(stackitem.Null{})
+		v.Call(deployOffset)
+	}
 	if initOffset >= 0 {
 		v.Call(initOffset)
 	}
@@ -627,7 +646,7 @@ func lowerFirst(s string) string {
 var globalRef = regexp.MustCompile(`\bg[0-9]+\b`)
 
 // checkABI compares manifest, debug information and script (second sentence of the property).
-func checkABI(pr *Prog, nf *nef.File, di *compiler.DebugInfo) (exclUnused bool, err error) {
+func checkABI(pr *Prog, nf *nef.File, di *compiler.DebugInfo, m *manifest.Manifest) (exclUnused bool, err error) {
 	script := nf.Script
 	// instruction boundaries
 	starts := map[int]opcode.Opcode{}
@@ -640,10 +659,6 @@ func checkABI(pr *Prog, nf *nef.File, di *compiler.DebugInfo) (exclUnused bool, 
 		}
 		starts[ctx.IP()] = op
 		params[ctx.IP()] = par
-	}
-	m, err := compiler.CreateManifest(di, &compiler.Options{Name: "c14", NoStandardCheck: true, NoEventsCheck: true, NoPermissionsCheck: true})
-	if err != nil {
-		return exclUnused, fmt.Errorf("manifest: %v", err)
 	}
 	byID := map[string]*compiler.MethodDebugInfo{}
 	type rg struct {
@@ -686,6 +701,13 @@ func checkABI(pr *Prog, nf *nef.File, di *compiler.DebugInfo) (exclUnused bool, 
 	known := map[string]*Func{}
 	for i := range pr.Funcs {
 		known[pr.Funcs[i].Name] = &pr.Funcs[i]
+	}
+	if pr.HasDeploy {
+		known[deployName] = &Func{Name: deployName, Params: deployParams}
+	}
+	for i := range pr.Lib {
+		// (the functions of other packages are listed under their bare names)
+		known[pr.Lib[i].Name] = &pr.Lib[i]
 	}
 	ids := make([]string, 0, len(byID))
 	for id := range byID {
@@ -734,6 +756,29 @@ func checkABI(pr *Prog, nf *nef.File, di *compiler.DebugInfo) (exclUnused bool, 
 			}
 			continue
 		}
+		if mm.Name == manifest.MethodDeploy {
+			// func _deploy(data any, isUpdate bool) is the one unexported function that is a method of the contract
+			dm := byID[deployName]
+			switch {
+			case !pr.HasDeploy:
+				return exclUnused, fmt.Errorf("manifest lists %s which the source does not declare", mm.Name)
+			case seen[mm.Name]:
+				return exclUnused, fmt.Errorf("manifest lists method %q twice", mm.Name)
+			case len(mm.Parameters) != 2 || mm.Parameters[0].Type != smartcontract.AnyType || mm.Parameters[1].Type != smartcontract.BoolType ||
+				mm.Parameters[0].Name != deployParams[0].Name || mm.Parameters[1].Name != deployParams[1].Name:
+				return exclUnused, fmt.Errorf("manifest: %s has the parameters %v, the source says (%s)", mm.Name, mm.Parameters, fieldList(deployParams))
+			case mm.ReturnType != smartcontract.VoidType:
+				return exclUnused, fmt.Errorf("manifest: %s returns %s, the source says nothing", mm.Name, mm.ReturnType)
+			case mm.Safe:
+				return exclUnused, fmt.Errorf("manifest: %s is marked safe", mm.Name)
+			case dm == nil:
+				return exclUnused, fmt.Errorf("manifest method %s has no debug info entry", mm.Name)
+			case int(dm.Range.Start) != mm.Offset:
+				return exclUnused, fmt.Errorf("manifest: method %s at offset %d, debug info says %d", mm.Name, mm.Offset, dm.Range.Start)
+			}
+			seen[mm.Name] = true
+			continue
+		}
 		var f *Func
 		for i := range pr.Funcs {
 			if pr.Funcs[i].Recv == nil && unicode.IsUpper(rune(pr.Funcs[i].Name[0])) && lowerFirst(pr.Funcs[i].Name) == mm.Name {
@@ -768,6 +813,14 @@ func checkABI(pr *Prog, nf *nef.File, di *compiler.DebugInfo) (exclUnused bool, 
 	}
 	needInit := len(pr.Inits) > 0
 	src := ""
+	if pr.HasDeploy {
+		if !seen[manifest.MethodDeploy] {
+			return exclUnused, fmt.Errorf("the source declares %s(%s) but the manifest has no such method", deployName, fieldList(deployParams))
+		}
+		p := &printer{}
+		p.block(pr.Deploy)
+		src += p.sb.String()
+	}
 	for i := range pr.Funcs {
 		f := &pr.Funcs[i]
 		if f.Recv == nil && unicode.IsUpper(rune(f.Name[0])) {
@@ -785,7 +838,7 @@ func checkABI(pr *Prog, nf *nef.File, di *compiler.DebugInfo) (exclUnused bool, 
 	_, hasInit := byID[manifest.MethodInit]
 	switch {
 	case needInit && !hasInit:
-		return exclUnused, fmt.Errorf("the program has package state used by exported functions (or init functions) but no _initialize method")
+		return exclUnused, fmt.Errorf("the program has package state used by exported functions (or init functions, or _deploy) but no _initialize method")
 	case hasInit && len(pr.Globals) == 0 && len(pr.Inits) == 0 && !usesDefer(pr) && !hasFuncVar(pr):
 		// (a defer needs a static slot for the pending exception, which _initialize allocates)
 		return exclUnused, fmt.Errorf("_initialize emitted for a program without package variables, init functions and defers")
@@ -877,6 +930,14 @@ func checkCase(c Case, o *vt.Obs) error {
 		if err := os.WriteFile(filepath.Join(pd, "harness.go"), []byte(harnessSource(&c.Progs[i], pkgName(i))), 0o644); err != nil {
 			return fmt.Errorf("%w: %v", errHarness, err)
 		}
+		if len(c.Progs[i].Lib) > 0 {
+			// the package the program imports: a directory of the same module (both compilers find it through go.mod)
+			ld := filepath.Join(dir, pkgName(i)+"lib")
+			_ = os.MkdirAll(ld, 0o755)
+			if err := os.WriteFile(filepath.Join(ld, "lib.go"), []byte(c.Progs[i].LibSource(pkgName(i))), 0o644); err != nil {
+				return fmt.Errorf("%w: %v", errHarness, err)
+			}
+		}
 	}
 	if err := os.WriteFile(filepath.Join(dir, "main.go"), []byte(mainSource(len(c.Progs))), 0o644); err != nil {
 		return fmt.Errorf("%w: %v", errHarness, err)
@@ -924,9 +985,22 @@ func checkCase(c Case, o *vt.Obs) error {
 				prs[i].unstable = "two compilations of the same source give different scripts: " + scriptDiff(nf.Script, nf2.Script)
 			}
 		}
-		prs[i].exclUnused, prs[i].abiErr = checkABI(pr, nf, di)
+		m, err := compiler.CreateManifest(di, &compiler.Options{Name: "c14", NoStandardCheck: true, NoEventsCheck: true, NoPermissionsCheck: true})
+		if err != nil {
+			prs[i].abiErr = fmt.Errorf("manifest: %v", err)
+			continue
+		}
+		prs[i].exclUnused, prs[i].abiErr = checkABI(pr, nf, di, m)
 		offs := map[string]int{}
-		initOff := -1
+		initOff, deployOff := -1, -1
+		if pr.HasDeploy {
+			// where a deployment would run it: the offset the manifest gives
+			if mm := m.ABI.GetMethod(manifest.MethodDeploy, 2); mm != nil {
+				deployOff = mm.Offset
+			} else if prs[i].abiErr == nil {
+				prs[i].abiErr = fmt.Errorf("the manifest has no %s method with two parameters", manifest.MethodDeploy)
+			}
+		}
 		for _, dm := range di.Methods {
 			offs[dm.ID] = int(dm.Range.Start)
 			if dm.ID == manifest.MethodInit {
@@ -939,7 +1013,7 @@ func checkCase(c Case, o *vt.Obs) error {
 				prs[i].res = append(prs[i].res, vmResult{fault: "no debug info for the method"})
 				continue
 			}
-			prs[i].res = append(prs[i].res, runVM(nf.Script, off, initOff, call.Args, pr.Funcs[call.F].Results[0].Type))
+			prs[i].res = append(prs[i].res, runVM(nf.Script, off, initOff, deployOff, call.Args, pr.Funcs[call.F].Results[0].Type))
 		}
 	}
 	tNeo := time.Since(tStart)
